@@ -265,7 +265,8 @@ func (*DefaultKeyFileClassifier) ClassifyExportedKey(path string) *ExportedKey {
 
 	// Poison key is in ".poison_key" subdirectory, we can't look at filename alone.
 	if strings.HasSuffix(path, "/"+getSymmetricKeyName(PoisonKeyFilename)) {
-		keyContext := keystore.NewKeyContext(keystore.PurposePoisonRecordSymmetricKey, []byte(PoisonKeyFilename))
+		// the key store protects this key with the name of its file as context (see GeneratePoisonSymmetricKey)
+		keyContext := keystore.NewKeyContext(keystore.PurposePoisonRecordSymmetricKey, []byte(getSymmetricKeyName(PoisonKeyFilename)))
 		return NewExportedSymmetricKey(path, keyContext)
 	}
 
